@@ -208,6 +208,10 @@ def gen_cases(rng, tier):
                         for e in (["ESRCH", "ENOENT"] if plat in ("sunos", "aix") else ["ESRCH"]):
                             cases.append({"kind": "ladder", "cls": "status-%s-%s" % (plat, code), "plat": plat, "meth": meth,
                                           "site": site, "err": e, "state": "code:" + code, "pid": pid})
+    # ---- list-then-read loops (Solaris threads / open_files / memory_maps): listing of length n, per-item outcome list
+    # (fault plan addressed by access point AND ordinal of the call there) combined with a fault at the trailing liveness
+    # probe os.stat(<procfs>/<pid>).  SYSTEMATIC, same block in every tier, never sampled.
+    cases.extend(_loop_cases())
     # ---- two native calls in one method (first fails with e1, the second route with e2), retry counts, wait()
     from props import _c20_probe as P
     for plat, prs in sorted(P.PAIRS.items()):
@@ -289,6 +293,44 @@ def gen_cases(rng, tier):
     return cases
 
 
+LOOP_WORLDS = [("alive", None), ("gone", "ENOENT"), ("zombie", "ENOENT"), ("gone", "ESRCH"), ("alive", "ENOENT"),
+               ("alive", "EPERM"), ("alive", "EIO"), ("gone", "EIO")]
+COQ_LMETH = dict(threads="LThreads", open_files="LOpenFiles", memory_maps="LMemoryMaps")
+
+
+def _loop_cases():
+    import itertools
+    from props import _c20_stub as S
+    out, seen = [], set()
+
+    def add(plat, meth, outs, st, stat):
+        key = (plat, meth, tuple(outs), st, stat)
+        if key in seen:
+            return
+        seen.add(key)
+        nf = sum(1 for o in outs if o is not None)
+        out.append({"kind": "loop", "cls": "loop-%s-%s-n%d-f%d%s" % (plat, meth, len(outs), nf, "-probe" if stat else ""),
+                    "plat": plat, "meth": meth, "outs": list(outs), "stat": stat, "state": st, "pid": 7})
+    for (plat, meth) in sorted(S.LOOPS):
+        for n in (2, 3, 4):
+            # one failing item j (every j, every errno) after the items < j were read, every (state, liveness answer)
+            for j in range(n):
+                for e in POSIX_ERRS:
+                    outs = [None] * n
+                    outs[j] = e
+                    for st, stat in (LOOP_WORLDS if e == "ENOENT" else [("alive", None), ("gone", "ENOENT"), ("gone", e)]):
+                        add(plat, meth, outs, st, stat)
+            # every outcome list over {read, vanished item, another error} (n = 4: {read, vanished})
+            alpha = [None, "ENOENT", "EIO"] if n < 4 else [None, "ENOENT"]
+            for outs in itertools.product(alpha, repeat=n):
+                for st, stat in LOOP_WORLDS[:4] + [("alive", "EPERM")]:
+                    add(plat, meth, outs, st, stat)
+        add(plat, meth, [], "alive", None)
+        add(plat, meth, [None], "gone", "ENOENT")
+        add(plat, meth, ["ENOENT"], "gone", "ENOENT")
+    return out
+
+
 # ------------------------------------------------------------------ Coq terms
 def _qs(s):
     return '"%s"%%string' % s
@@ -349,6 +391,11 @@ def coq_term(case):
                                                 COQ_STATE[case["state"]], G.z(case["pid"]))
     if k == "wait":
         return "run_wait %s %s %s %s" % (COQ_PLAT[case["plat"]], case["scen"], COQ_STATE[case["state"]], G.z(case["pid"]))
+    if k == "loop":
+        outs = "[" + "; ".join("IOk" if o is None else "IFail %s" % o for o in case["outs"]) + "]"
+        return "run_loop %s %s %s %s %s" % (COQ_LMETH[case["meth"]], outs,
+                                            "None" if case["stat"] is None else "(Some %s)" % case["stat"],
+                                            COQ_STATE[case["state"]], G.z(case["pid"]))
     if k == "layout":
         return "run_layout %s %s %s %s" % (COQ_PLAT[case["plat"]], _qs(case["meth"]), _qs(case["variant"]),
                                            _records_term(case["records"]))
@@ -370,7 +417,7 @@ def coq_struct(case, raw):
         return {"model": raw[0], "spec": raw[1], "contract": raw[2]}
     if k == "fename":
         return {"model": raw, "spec": None}
-    if k == "probe":
+    if k in ("probe", "loop"):
         return {"model": raw[0], "spec": None, "allowed": raw[1]}
     if k in ("layout", "dep", "nic", "pair", "retry", "wait", "sysfields", "olayout", "allfail", "probe", "fename"):
         return {"model": raw[0], "spec": raw[1]}
@@ -444,6 +491,16 @@ def judge(case, coq, impl):
                 return Verdict("violation", "%s raised by %s() after name() returned %r carries pid/name %r"
                                % (out["t"], case["femeth"], ret, out["a"]))
         return Verdict("ok") if impl == coq["model"] else Verdict("corr", "impl != model")
+    if k == "loop":
+        allowed = coq["allowed"]
+        if isinstance(impl, dict) and impl.get("t") == "LoopCalls":
+            return Verdict("corr", "the loop made %r calls at its per-item access point, planned %d" % (impl["a"], len(case["outs"])))
+        if impl not in allowed:
+            return Verdict("violation", "%s.%s(): listing of %d items, per-item outcomes %r, liveness probe os.stat -> %r, PID %s: "
+                           "got %r, acceptable %r" % (case["plat"], case["meth"], len(case["outs"]),
+                                                      ["read" if o is None else o for o in case["outs"]],
+                                                      case["stat"] or "ok", case["state"], impl, allowed))
+        return Verdict("ok") if impl == coq["model"] else Verdict("corr", "impl != model")
     if k == "probe":
         if isinstance(impl, dict) and impl.get("t") == "NotFired":
             return Verdict("corr", "native call %s not reached" % case["site"])
@@ -499,7 +556,7 @@ def judge(case, coq, impl):
 
 
 def nontrivial(case, coq, impl):
-    return case["kind"] in ("ladder", "layout", "nic", "dep", "pair", "retry", "wait", "sysfields", "olayout", "allfail", "probe", "fename")
+    return case["kind"] in ("ladder", "layout", "nic", "dep", "pair", "retry", "wait", "sysfields", "olayout", "allfail", "probe", "fename", "loop")
 
 
 # ------------------------------------------------------------------ implementation side (worker)
@@ -585,6 +642,22 @@ def impl_run(case, coq, env):
         if case["meth"] not in P.methods_of(L):
             return T("NoSuchMethod")
         return P.probefault_outcome(L, case["meth"], case["site"], case["err1"], case["err2"], case["pid"])
+    if k == "loop":
+        L = _layer(case["plat"], env)
+        if case["meth"] not in P.methods_of(L):
+            return T("NoSuchMethod")
+        site = S.LOOPS[(case["plat"], case["meth"])]
+        kind, r = L.run(case["meth"], pid=case["pid"], state=case["state"], nitems=len(case["outs"]),
+                        faults=S.loop_faults(case["plat"], case["meth"], case["outs"], case["stat"]))
+        hard = [o for o in case["outs"] if o not in (None, "ENOENT")]
+        made = L.world.ncalls.get(site, 0)
+        if kind == "val":
+            if made != len(case["outs"]):
+                return T("LoopCalls", made)
+            return S.loop_answer(L, case["meth"], r)
+        if not hard and made != len(case["outs"]):
+            return T("LoopCalls", made)
+        return S.classify(L, kind, r, need_fired=False)
     if k == "allfail":
         L = _layer(case["plat"], env)
         if case["meth"] not in P.methods_of(L):
